@@ -107,8 +107,11 @@ func (s Selector) Render() string {
 						b.WriteString(", ")
 					}
 					k := f.Key
-					if strings.ContainsAny(k, ". ") {
-						k = "'" + k + "'"
+					for _, ch := range k {
+						if !(ch == '_' || ch >= '0' && ch <= '9' || ch >= 'a' && ch <= 'z' || ch >= 'A' && ch <= 'Z') {
+							k = "'" + k + "'"
+							break
+						}
 					}
 					b.WriteString(k)
 					if f.Type != "" {
